@@ -65,6 +65,8 @@ class Ctx:
                 self.count('units_parsed[%s]' % c, len(res[c]))
                 self.count('functions_with_body[%s]' % c,
                            sum(1 for f in self._programs[c].functions.values() if 'body' in f))
+                if getattr(self._programs[c], 'dissolved', None):
+                    self.count('new_file_local_helpers_dissolved[%s]' % c, len(self._programs[c].dissolved))
         return {c: self._programs[c] for c in cfgs}
 
     def program(self, cfg):
